@@ -120,3 +120,203 @@ Proof.
   induction 1. apply inv8_init.
   pose proof (inv_reachable _ _ H) as J. destruct J. eapply inv8_step; eauto.
 Qed.
+
+(* ---------- progress ---------- *)
+Definition can (p : params) (st : state) : Prop :=
+  exists l, is_env l = false /\ step p st l <> None.
+
+Ltac unfold_goal_steps :=
+  unfold step, step_walker, step_worker, step_req, step_req_ctx, step_send_ret, step_recvloop,
+    step_recvloop_closed, step_fill, step_fill_ctx, step_diff, step_diff_ctx, step_diffouter,
+    step_writer, step_writer_ctx, step_recv_ret, send_s, send_r, lock_s, lock_r,
+    sender_quiet, sw_is_done, rq_is_done, fl_is_done, dl_is_done, do_is_done, rl_is_done.
+Ltac rw_goal := repeat match goal with E : ?f ?s = ?v |- context [?f ?s] => rewrite E end.
+Ltac can_by l :=
+  exists l; split; [reflexivity|]; unfold_goal_steps; rw_goal; cbn; rw_goal; cbn;
+  repeat match goal with |- context [match ?x with _ => _ end] => destruct x eqn:?; rw_goal; cbn end;
+  try discriminate.
+
+Lemma find_or_all : forall A (f : A -> bool) l,
+  (exists j w, nth_error l j = Some w /\ f w = true) \/ forallb (fun w => negb (f w)) l = true.
+Proof.
+  induction l.
+  - right. reflexivity.
+  - destruct (f a) eqn:E.
+    + left. exists 0, a. split; auto.
+    + destruct IHl as [(j & w & A1 & A2)|B].
+      * left. exists (S j), w. split; auto.
+      * right. unfold forallb. rewrite E. cbn. exact B.
+Qed.
+
+Lemma idle_pos : forall l j, nth_error l j = Some WK_Idle -> 1 <= length (filter wk_idle l).
+Proof.
+  induction l; destruct j; intros H.
+  - unfold nth_error in H; discriminate.
+  - unfold nth_error in H; discriminate.
+  - unfold nth_error in H. injection H as H. subst. cbn. lia.
+  - change (nth_error l j = Some WK_Idle) in H. apply IHl in H. cbn. destruct (wk_idle a); cbn; lia.
+Qed.
+
+Lemma sender_progress : forall p st,
+  p_W p >= 1 -> p_old_queue p = false ->
+  mutex_inv st -> inv8 p st -> s_broken st = true ->
+  (sender_quiet st && negb (is_none (send_ret st))) = false ->
+  can p st.
+Proof.
+  intros p st HW HQ [Ms _] (T1 & T2 & T3 & _) B NF.
+  destruct (s_mu st) as [g|] eqn:M.
+  { (* the mutex owner is inside SendMsg: it completes with an error *)
+    pose proof (proj2 (Ms g) eq_refl) as M'. clear M. rename M' into M. destruct g; cbn in M; try discriminate.
+    - destruct (sw_pc st) eqn:?; try discriminate. can_by LSWalk.
+    - destruct (nth_error (wks st) j) as [w|] eqn:?; try discriminate.
+      destruct w; try discriminate; can_by (LWorker j).
+    - destruct (rq_pc st) eqn:?; try discriminate. can_by LReq. }
+  destruct (sw_pc st) eqn:SW; try (can_by LSWalk; fail).
+  (* a worker that is neither done nor idle can move *)
+  destruct (find_or_all _ (fun w => negb (wk_done w) && negb (wk_idle w)) (wks st)) as [(j & w & A1 & A2)|AllDI].
+  { destruct w; try discriminate; can_by (LWorker j). }
+  destruct (rq_pc st) eqn:RQ; try (can_by LReq; fail).
+  - (* RQ_Push: queue() *)
+    destruct (find_or_all _ wk_idle (wks st)) as [(j & w & A1 & A2)|AllD].
+    + destruct w; try discriminate.
+      destruct (pipe st) eqn:PI.
+      * exists LReq. split; [reflexivity|]. unfold_goal_steps. rw_goal.
+        unfold room_pipe, idle_workers. rewrite PI. cbn.
+        pose proof (idle_pos _ _ A1).
+        destruct (0 <? p_P p + length (filter wk_idle (wks st))) eqn:X; try discriminate.
+        apply Nat.ltb_ge in X. lia.
+      * can_by (LWorker j).
+    + (* every worker is done: one of them returned an error, so ctx is cancelled *)
+      destruct (nth_error (wks st) 0) as [w|] eqn:W0.
+      2:{ apply nth_error_None in W0. lia. }
+      assert (w = WK_Done).
+      { pose proof (forallb_nth _ _ _ _ _ AllDI W0) as X1. pose proof (forallb_nth _ _ _ _ _ AllD W0) as X2.
+        destruct w; try discriminate; reflexivity. }
+      subst w. destruct (T2 _ W0) as [X|X]; [congruence|].
+      exists LReqCtx. split; [reflexivity|]. unfold_goal_steps. rw_goal. cbn. discriminate.
+  - (* RQ_Done: the pipeline is closed *)
+    destruct (find_or_all _ (fun w => negb (wk_done w)) (wks st)) as [(j & w & A1 & A2)|AllD].
+    + pose proof (forallb_nth _ _ _ _ _ AllDI A1) as X. cbn in X. rewrite A2 in X. cbn in X.
+      destruct w; try discriminate. can_by (LWorker j).
+    + exists LSendRet. split; [reflexivity|].
+      assert (Q: sender_quiet st = true).
+      { unfold sender_quiet, sw_is_done, rq_is_done. rewrite SW, RQ. cbn.
+        rewrite forallb_forall in *. intros x Hx. apply AllD in Hx. destruct (wk_done x); auto. }
+      rewrite Q in NF. cbn in NF. unfold step, step_send_ret. rewrite Q. cbn.
+      destruct (send_ret st); cbn in *; discriminate.
+Qed.
+
+Definition receiver_quiet (st : state) : bool :=
+  fl_is_done st && dl_is_done st && do_is_done st && rl_is_done st && forallb wr_done (wrs st).
+
+Lemma writer_can : forall p st j w,
+  nth_error (wrs st) j = Some w -> wr_done w = false -> r_mu st = None -> r_broken st = true ->
+  r_cancel st = true -> can p st.
+Proof.
+  intros p st j w E ND M B RC. destruct w as [id pc]. unfold wr_done in ND. cbn in ND.
+  destruct pc; try discriminate.
+  - can_by (LWriter j).
+  - can_by (LWriter j).
+  - can_by (LWriter j).
+  - exists (LWriterCtx j). split; [reflexivity|]. unfold_goal_steps. rewrite E. cbn.
+    unfold eg_canc. rewrite RC. cbn. discriminate.
+  - can_by (LWriter j).
+Qed.
+
+Lemma receiver_progress : forall p st,
+  mutex_inv st -> inv1 st -> inv2 p st -> inv3 st -> inv8 p st -> r_broken st = true ->
+  (receiver_quiet st && negb (is_none (recv_ret st))) = false ->
+  can p st.
+Proof.
+  intros p st [_ Mr] J1 J2 J3 (_ & _ & _ & T4 & T5 & T6) B NF.
+  destruct J1 as (_ & _ & _ & A4 & A5 & _ & _ & A8 & A9 & _ & _).
+  destruct J2 as (_ & _ & _ & _ & _ & K6 & K7 & _ & _).
+  destruct J3 as (B1 & _ & _ & B4 & _ & B6 & _ & _).
+  destruct (r_mu st) as [g|] eqn:M.
+  { pose proof (proj2 (Mr g) eq_refl) as M'. clear M. destruct g; cbn in M'; try discriminate.
+    - destruct (do_pc st) eqn:?; try discriminate; can_by LDiffOuter.
+    - destruct (nth_error (wrs st) j) as [w|] eqn:?; try discriminate.
+      destruct w as [id pc]. cbn in M'. destruct pc; try discriminate. can_by (LWriter j). }
+  destruct (rl_pc st) eqn:RL; try (can_by LRecvLoop; fail).
+  - (* RL_Push: blocked on walkChan unless fill, the diff loop or closeCh help *)
+    destruct (fl_pc st) eqn:FL; try (can_by LFill; fail).
+    + destruct (walk_n st) eqn:WN.
+      * exists LRecvLoop. split; [reflexivity|]. unfold_goal_steps. rw_goal.
+        unfold room_walk, fl_in_sel. rw_goal. cbn.
+        destruct (0 <? p_C p + 1) eqn:X; try discriminate. apply Nat.ltb_ge in X. lia.
+      * can_by LFill.
+    + destruct (dl_pc st) eqn:DL.
+      * destruct (c2_n st) eqn:CN.
+        -- exists LFill. split; [reflexivity|]. unfold_goal_steps. rw_goal.
+           unfold room_c2, dl_in_next. rw_goal. cbn.
+           destruct (0 <? p_C2 p + 1) eqn:X; try discriminate. apply Nat.ltb_ge in X. lia.
+        -- can_by LDiff.
+      * can_by LDiff.
+      * destruct (T6 eq_refl) as [X|X].
+        -- exists LFillCtx. split; [reflexivity|]. unfold_goal_steps. rw_goal. try rewrite X. discriminate.
+        -- apply B6 in X. contradiction.
+    + destruct T4 as [X|[X _]].
+      * exists LRecvLoopClosed. split; [reflexivity|]. unfold_goal_steps. rw_goal. discriminate.
+      * apply K7 in X. congruence.
+  - (* RL_Done *)
+    destruct (r_cancel st) eqn:RC.
+    2:{ (* returned nil: FIN handshake completed, so everything else is done *)
+      destruct (r_err st) eqn:RE; [specialize (T5 eq_refl); congruence|].
+      destruct A9 as [X|X]; [congruence|].
+      destruct (B4 (A5 (A4 (A8 X)))) as (D1 & _ & _ & W1).
+      rewrite D1 in B1. destruct B1 as [F1 L1].
+      exists LRecvRet. split; [reflexivity|].
+      assert (Q: receiver_quiet st = true).
+      { unfold receiver_quiet, fl_is_done, dl_is_done, do_is_done, rl_is_done. rw_goal. cbn. reflexivity. }
+      rewrite Q in NF. cbn in NF. unfold step, step_recv_ret, do_is_done, rl_is_done. rw_goal. cbn.
+      destruct (recv_ret st); cbn in *; discriminate. }
+    assert (DC: d_canc st = true) by (unfold d_canc; rewrite RC; reflexivity).
+    destruct (fl_pc st) eqn:FL; try (can_by LFill; fail);
+      try (exists LFillCtx; split; [reflexivity|]; unfold_goal_steps; rw_goal; discriminate).
+    destruct (dl_pc st) eqn:DL; try (can_by LDiff; fail);
+      try (exists LDiffCtx; split; [reflexivity|]; unfold_goal_steps; rw_goal; discriminate).
+    destruct (find_or_all _ (fun w => negb (wr_done w)) (wrs st)) as [(j & w & A1 & A2)|AllD].
+    { eapply writer_can; eauto. destruct (wr_done w); auto; discriminate. }
+    assert (AD: forallb wr_done (wrs st) = true).
+    { rewrite forallb_forall in *. intros x Hx. apply AllD in Hx. destruct (wr_done x); auto. }
+    destruct (do_pc st) eqn:DO; try (can_by LDiffOuter; fail).
+    exists LRecvRet. split; [reflexivity|].
+    assert (Q: receiver_quiet st = true).
+    { unfold receiver_quiet, fl_is_done, dl_is_done, do_is_done, rl_is_done. rw_goal. cbn. reflexivity. }
+    rewrite Q in NF. cbn in NF. unfold step, step_recv_ret, do_is_done, rl_is_done. rw_goal. cbn.
+    destruct (recv_ret st); cbn in *; discriminate.
+Qed.
+
+Lemma torn_down_step : forall p st l st',
+  torn_down st = true -> step p st l = Some st' -> torn_down st' = true.
+Proof.
+  intros p st l st' T H. unfold torn_down in *. apply andb_prop in T. destruct T as [Ts Tr].
+  destruct l; unfold_steps H; rewrite ?Ts, ?Tr in H; cbn in H; step_split H; inv_some; subst;
+  repeat match goal with w : writer |- _ => destruct w; cbn in * end; subst; cbn; rewrite ?Ts, ?Tr; reflexivity.
+Qed.
+
+Lemma progress_proof : forall p st,
+  p_W p >= 1 -> p_old_queue p = false -> reachable p st -> torn_down st = true ->
+  final st = false -> can p st.
+Proof.
+  intros p st HW HQ R T NF.
+  pose proof (inv_reachable _ _ R) as J. pose proof (inv8_reachable _ _ R) as J8. destruct J.
+  unfold torn_down in T. apply andb_prop in T. destruct T as [Ts Tr].
+  destruct (sender_quiet st && negb (is_none (send_ret st))) eqn:S.
+  - apply receiver_progress; auto.
+    unfold final, all_done in NF. unfold receiver_quiet.
+    apply andb_prop in S. destruct S as [S1 S2]. rewrite S1, S2 in NF. cbn in NF.
+    destruct (fl_is_done st), (dl_is_done st), (do_is_done st), (rl_is_done st),
+      (forallb wr_done (wrs st)), (is_none (recv_ret st)); cbn in *; auto; discriminate.
+  - apply sender_progress; auto.
+Qed.
+
+Lemma run_bounded_proof : forall p ls st st',
+  torn_down st = true -> run p st ls = Some st' -> length ls + mu st' <= mu st /\ torn_down st' = true.
+Proof.
+  induction ls; intros st st' T H; cbn in H.
+  - injection H as H. subst. cbn. split; auto.
+  - destruct (step p st a) as [st1|] eqn:E; try discriminate.
+    pose proof (mu_decreases_proof _ _ _ _ T E). pose proof (torn_down_step _ _ _ _ T E) as T1.
+    destruct (IHls _ _ T1 H). split; auto. cbn. lia.
+Qed.
